@@ -12,6 +12,7 @@ pub mod scn_basic;
 pub mod scn_c13;
 pub mod scn_conc;
 pub mod scn_c09;
+pub mod scn_r3;
 pub mod scn_c14;
 pub mod scn_seq;
 pub mod scn_c18;
